@@ -207,9 +207,14 @@ def P5(m, R):
     # the non-optimised code list: RESET first when the point has stop markers and something stays active
     cons = 'reset before re-applying'
     hit = None
+    from ..shapes import local_aliases, canon
+    al_ = local_aliases(f)
+
+    def cn(x):
+        return canon(x, al_)
     for n in ast.walk(loop):
-        if isinstance(n, ast.If) and any((isinstance(x, ast.Assign) and 'AnsiParam.RESET' in norm(x.value) and isinstance(x.value, ast.BinOp)) or
-                                         (isinstance(x, ast.Expr) and call_name(x.value) == 'insert' and 'AnsiParam.RESET' in norm(x.value)) for x in n.body):
+        if isinstance(n, ast.If) and any((isinstance(x, ast.Assign) and 'AnsiParam.RESET' in cn(x.value) and isinstance(x.value, ast.BinOp)) or
+                                         (isinstance(x, ast.Expr) and call_name(x.value) == 'insert' and 'AnsiParam.RESET' in cn(x.value)) for x in n.body):
             hit = n
             break
     if hit is None:
@@ -220,13 +225,13 @@ def P5(m, R):
         if ins:
             c = ins[0].value
             lst = norm(c.func.value)
-            if not (len(c.args) == 2 and const_val(c.args[0], None) == 0 and norm(c.args[1]) == 'str(AnsiParam.RESET.value)'):
+            if not (len(c.args) == 2 and const_val(c.args[0], None) == 0 and cn(c.args[1]) == 'str(AnsiParam.RESET.value)'):
                 problems.append('%s; expected RESET inserted at the front' % short(c))
         else:
             asg = [x for x in hit.body if isinstance(x, ast.Assign)][0]
             lst = norm(asg.targets[0])
             parts = flatten_add(asg.value)
-            if not (len(parts) == 2 and norm(parts[0]) == '[str(AnsiParam.RESET.value)]' and norm(parts[1]) == lst):
+            if not (len(parts) == 2 and cn(parts[0]) == '[str(AnsiParam.RESET.value)]' and norm(parts[1]) == lst):
                 problems.append('%s = %s; expected [RESET] + %s' % (lst, short(asg.value), lst))
         stop = '%s.%s' % (point, ro.STOP)
         tt = {}
